@@ -1,5 +1,6 @@
 //! Worlds, roots and the run/replay plumbing shared by the history checks.
 
+use crate::ix;
 use crate::act::{self, Action};
 use crate::evidence::{Found, Outcome};
 use crate::hist::{HState, Hist};
@@ -182,6 +183,17 @@ pub fn standard_roots(w: &World, s0: &Store, with_forged: bool) -> Vec<(String, 
         "R6",
     );
     roots.push(("R6".to_string(), mk(r6, false)));
+
+    // R7: like R1, but the group's risk admin is the borrower u1 itself (the risk admin is an ordinary
+    // key and may hold positions): whatever privileges that role has must not leak into plain banks
+    let mut r7 = r1.clone();
+    {
+        let mut roles = ix::GroupRoles { admin: w.roles.admin, emode: w.roles.emode, curve: w.roles.curve, limit: w.roles.limit, emissions: w.roles.emissions, metadata: w.roles.metadata, risk: w.users[1].authority };
+        roles.risk = w.users[1].authority;
+        let r = crate::svm::process_tx(&mut r7, &crate::svm::Tx::one(ix::group_configure(w.group, w.roles.admin, &roles, None, None), &[w.roles.admin]));
+        assert!(r.ok(), "R7 group_configure");
+    }
+    roots.push(("R7".to_string(), mk(r7, false)));
 
     if with_forged {
         // R4: forged fee buckets: fractional, >1, and larger than the vault
